@@ -23,7 +23,7 @@ ASSUMPTIONS = ['Python int lists must come back as an integer dtype holding all 
                'empty arrays of dtypes without a TDMS mapping carry no type requirement']
 REQUIRED = ['programs', 'segments_accepted', 'channels_compared', 'props_compared', 'prop_types_observed', 'append_sessions', 'path_targets',
             'names_checked']
-N = {'quick': 2500, 'thorough': 100000}
+N = {'quick': 8000, 'thorough': 100000}
 
 
 def gen_cases(tier, seed):
